@@ -171,7 +171,11 @@ def run_program(inst, mode):
         return ("ran", dropped, out[0] if out else None, r_vm)
 
     eng = Engine(max_decisions=300, max_paths=800, path_timeout=8.0)
+    import time as _time
+    eng.deadline = _time.time() + 120.0
     paths = eng.explore(fn, preF)
+    if eng.truncated:
+        res["cut"] += 1
     res["paths"] = len(paths)
     if not paths:
         if "random" in inst.get("tags", []):
